@@ -825,6 +825,206 @@ fn ring_space(ctx: &Ctx, nmax: usize) {
     );
 }
 
+/// A ring of k >= 5 roots next to OTHER roots: lead ((x - c)^k - d^k) prod (x - s_j). From afar Laguerre's step lands on the centre c of the ring,
+/// where p', p'' vanish; the next step is huge but - the other roots make the root disc large - stays inside the disc, so the replacement of
+/// row 43 never fired and the iteration alternated between the centre and a far point; the centre was deflated with and the polish threw
+/// several values onto one root (fourth bug hunt: ((x+8)^6 - 0.5^6)(x+1) returned -1 twice and missed -8.5). Oracle: backward error, and - where every
+/// root is resolvable - every true root matched by exactly one returned value (both settings: the unrefined values of a resolvable
+/// configuration are within a small fraction of the separation too).
+fn ring_with_others_space(ctx: &Ctx) {
+    let centres: Vec<C> = vec![(-8., 0.), (0.75, 0.), (4., 0.), (-1., 0.), (0., 2.), (1.5, -1.)];
+    let ks = [5usize, 6, 7, 8, 9];
+    let ds = [0.5, 0.05, 0.4];
+    // extra roots relative to nothing: absolute positions; sets that would collide with the ring are skipped
+    let extras: Vec<Vec<C>> = vec![vec![(-1., 0.)], vec![(0.25, 0.)], vec![(1., 0.), (2., 0.), (2.5, 0.)], vec![(0., 0.)], vec![(3., 1.), (3., -1.)], vec![(-2.4, 0.), (-2.4, 0.)]];
+    let ld: Vec<C> = vec![(1., 0.), (7., 0.), (0., -2.)];
+    let mut cases = vec![];
+    for ci in 0..centres.len() {
+        for &k in &ks {
+            for di in 0..ds.len() {
+                for ei in 0..extras.len() {
+                    if k + extras[ei].len() > 12 {
+                        continue;
+                    }
+                    if extras[ei].iter().any(|e| cabs(csub(*e, centres[ci])) < ds[di] + 0.3) {
+                        continue;
+                    }
+                    for li in 0..ld.len() {
+                        // one member is listed as a known finding (see `ring_known_case`) and judged there
+                        if (ci, k, di, ei, li) == (0, 7, 2, 2, 1) {
+                            continue;
+                        }
+                        cases.push((ci, k, di, ei, li));
+                    }
+                }
+            }
+        }
+    }
+    ctx.lattice(
+        "a ring of 5..9 roots next to other roots: 6 centres x 5 ring sizes x radii {0.5,0.05,0.4} x 6 sets of other roots (simple, conjugate pair, double) x 3 leads x refine",
+        cases.len() as u64 * 2,
+        |idx| format!("{:?} refine={}", cases[(idx / 2) as usize], idx % 2 == 1),
+        |idx, acc| {
+            let (ci, k, di, ei, li) = cases[(idx / 2) as usize];
+            let refine = idx % 2 == 1;
+            let (c, d, lead) = (centres[ci], ds[di], ld[li]);
+            let mut ring = expand((1., 0.), &vec![c; k]);
+            ring[0] = csub(ring[0], (d.powi(k as i32), 0.0));
+            // multiply by the other factors and the lead
+            let mut coef = ring;
+            for &e in &extras[ei] {
+                let mut n = vec![(0.0, 0.0); coef.len() + 1];
+                for t in 0..coef.len() {
+                    n[t + 1] = cadd(n[t + 1], coef[t]);
+                    n[t] = csub(n[t], cmul(coef[t], e));
+                }
+                coef = n;
+            }
+            for z in coef.iter_mut() {
+                *z = cmul(*z, lead);
+            }
+            acc.nontriv("ring next to other roots");
+            let key = || format!("ring+others centre={:?} k={} radius={} others={:?} lead={:?} refine={}", c, k, d, extras[ei], lead, refine);
+            let mut local = Acc::new("t");
+            let res = catch(|| -> Result<(), String> {
+                let g = run_cmplx(&coef, refine);
+                judge_roots(&coef, &g, refine, false, &mut local, "ring+others")?;
+                let mut outs = vec![g.clone()];
+                if coef.iter().all(|z| z.1 == 0.0) {
+                    let pr = Polynomial::<f64>::new(coef.iter().map(|z| z.0).collect());
+                    let gr: Vec<C> = pr.roots(refine).vec.iter().map(|z| (z.real, z.imag)).collect();
+                    judge_roots(&coef, &gr, refine, false, &mut local, "ring+others (f64 entry)")?;
+                    outs.push(gr);
+                }
+                // true roots: the ring and the others (a double root among the others counts twice)
+                let mut truth: Vec<C> = (0..k).map(|j| { let a = 2.0 * std::f64::consts::PI * j as f64 / k as f64; (c.0 + d * a.cos(), c.1 + d * a.sin()) }).collect();
+                let simple_others = extras[ei].len() < 2 || extras[ei][0] != extras[ei][1];
+                truth.extend(extras[ei].iter().cloned());
+                let n = truth.len();
+                let sum = |t: C| -> f64 { coef.iter().enumerate().map(|(q, a)| cabs(*a) * cabs(t).powi(q as i32)).sum() };
+                let mut resolvable = simple_others;
+                let mut seps = vec![0.0; n];
+                for i in 0..n {
+                    let sep = (0..n).filter(|&j| j != i).map(|j| cabs(csub(truth[i], truth[j]))).fold(f64::INFINITY, f64::min);
+                    let dp: f64 = cabs(lead) * (0..n).filter(|&j| j != i).map(|j| cabs(csub(truth[i], truth[j]))).product::<f64>();
+                    seps[i] = sep;
+                    if !(1000.0 * f64::EPSILON * sum(truth[i]) / dp <= sep / 16.0) {
+                        resolvable = false;
+                    }
+                }
+                if resolvable {
+                    local.nontriv("ring next to other roots matched one-to-one");
+                    for got in outs.iter() {
+                        for i in 0..n {
+                            let near = got.iter().filter(|z| cabs(csub(**z, truth[i])) <= 0.25 * seps[i]).count();
+                            ensure!(near == 1, "the simple root {:?} (nearest other root {:e} away) is returned {} times; returned {:?}", truth[i], seps[i], near, got);
+                        }
+                    }
+                }
+                Ok(())
+            });
+            for (k2, v) in std::mem::take(&mut local.hits) {
+                *acc.hits.entry(k2).or_insert(0) += v;
+            }
+            acc.merge_worst(local);
+            match res {
+                Ok(Ok(())) => {}
+                Ok(Err(e)) => acc.fail(idx, key(), e),
+                Err(p) => acc.fail(idx, key(), format!("unexpected panic: {}", p)),
+            }
+        },
+    );
+}
+
+/// the one member of `ring_with_others_space` that still fails after 0a (the step cap): 7 ((x+8)^7 - 0.4^7)(x-1)(x-2)(x-2.5). The unrefined
+/// values of the ring are 0.1 off (their normwise backward error is 1e-18: max|a_k| max(1,|z|)^10 is 1e19 here, so that measure says nothing),
+/// and the polish then takes one of them to a neighbour's root. Listed, not repaired: it is the accuracy of deflation on a polynomial whose
+/// coefficients span ten orders of magnitude, not a cycle.
+fn ring_known_case(ctx: &Ctx) {
+    let mut cases: Vec<(String, Box<dyn Fn() -> Result<(), String> + Sync + Send>)> = vec![];
+    for refine in [false, true] {
+        cases.push((
+            format!("ring-of-7 radius 0.4 about -8 times (x-1)(x-2)(x-2.5), lead 7, refine={}", refine),
+            Box::new(move || {
+                let c: C = (-8.0, 0.0);
+                let mut coef = expand((1., 0.), &vec![c; 7]);
+                coef[0] = csub(coef[0], (0.4f64.powi(7), 0.0));
+                for e in [(1.0, 0.0), (2.0, 0.0), (2.5, 0.0)] {
+                    let mut n = vec![(0.0, 0.0); coef.len() + 1];
+                    for t in 0..coef.len() {
+                        n[t + 1] = cadd(n[t + 1], coef[t]);
+                        n[t] = csub(n[t], cmul(coef[t], e));
+                    }
+                    coef = n;
+                }
+                for z in coef.iter_mut() {
+                    *z = cmul(*z, (7.0, 0.0));
+                }
+                let g = run_cmplx(&coef, refine);
+                for j in 0..7 {
+                    let a = 2.0 * std::f64::consts::PI * j as f64 / 7.0;
+                    let t = (c.0 + 0.4 * a.cos(), 0.4 * a.sin());
+                    let near = g.iter().filter(|z| cabs(csub(**z, t)) <= 0.08).count();
+                    ensure!(near == 1, "the ring root {:?} is returned {} times; returned {:?}", t, near, g);
+                }
+                Ok(())
+            }),
+        ));
+    }
+    ctx.known_cases("listed input: a ring of seven about -8 next to three more roots (deflation accuracy)", cases);
+}
+
+/// listed inputs of the fourth bug hunt (hunt/C10/round4), repaired by 4299543: counts of returned values near each root
+fn hunt4_cases(ctx: &Ctx) {
+    fn polymul(a: &[f64], b: &[f64]) -> Vec<f64> {
+        let mut r = vec![0.0; a.len() + b.len() - 1];
+        for i in 0..a.len() {
+            for j in 0..b.len() {
+                r[i + j] += a[i] * b[j];
+            }
+        }
+        r
+    }
+    fn ring(a: f64, k: usize, delta: f64) -> Vec<f64> {
+        let mut f = vec![1.0];
+        for _ in 0..k {
+            f = polymul(&f, &[-a, 1.0]);
+        }
+        f[0] -= delta.powi(k as i32);
+        f
+    }
+    // (coefficients, refine settings, [(point, radius, expected count)])
+    let items: Vec<(&'static str, Vec<f64>, Vec<bool>, Vec<(C, f64, usize)>)> = vec![
+        ("((x+8)^6 - 0.5^6)(x+1)", polymul(&ring(-8.0, 6, 0.5), &[1.0, 1.0]), vec![false, true], vec![((-1.0, 0.0), 0.1, 1), ((-8.5, 0.0), 0.1, 1), ((-7.5, 0.0), 0.1, 1), ((-8.0, 0.0), 0.7, 6)]),
+        ("((x-0.75)^9 - 0.05^9)(x-0.25)", polymul(&ring(0.75, 9, 0.05), &[-0.25, 1.0]), vec![false, true], vec![((0.25, 0.0), 0.1, 1), ((0.75, 0.0), 0.1, 9)]),
+        ("((x-4)^7 - 0.5^7)(x-1)(x-2)(x-2.5)", polymul(&polymul(&polymul(&ring(4.0, 7, 0.5), &[-1.0, 1.0]), &[-2.0, 1.0]), &[-2.5, 1.0]), vec![false, true], vec![((1.0, 0.0), 0.05, 1), ((2.0, 0.0), 0.05, 1), ((2.5, 0.0), 0.05, 1), ((4.5, 0.0), 0.1, 1), ((4.0, 0.0), 0.7, 7)]),
+        ("(x-3.3)^5 (x-1.3) in f64", vec![508.76010899999994, -1162.20258, 1060.1414999999997, -500.93999999999994, 130.34999999999997, -17.8, 1.0], vec![false, true], vec![((1.3, 0.0), 0.5, 1), ((3.3, 0.0), 0.5, 5)]),
+        ("1000 x (x+4.5)^6 perturbed", vec![0.0, 8303765.624999908, 11071687.5, 6150937.5, 1822500.0, 303750.0, 27000.0, 1000.0], vec![false, true], vec![((0.0, 0.0), 0.5, 1), ((-4.5, 0.0), 0.5, 6)]),
+    ];
+    let mut cases: Vec<(String, Box<dyn Fn() -> Result<(), String> + Sync + Send>)> = vec![];
+    for (name, co, refs, wants) in items {
+        for refine in refs {
+            let (co, wants) = (co.clone(), wants.clone());
+            cases.push((
+                format!("hunt4 {} refine={}", name, refine),
+                Box::new(move || {
+                    let cc: Vec<C> = co.iter().map(|x| (*x, 0.0)).collect();
+                    let mut local = Acc::new("t");
+                    for got in [run_cmplx(&cc, refine), Polynomial::<f64>::new(co.clone()).roots(refine).vec.iter().map(|z| (z.real, z.imag)).collect::<Vec<C>>()] {
+                        judge_roots(&cc, &got, refine, false, &mut local, "hunt4")?;
+                        for &(t, rad, cnt) in wants.iter() {
+                            let near = got.iter().filter(|z| cabs(csub(**z, t)) <= rad).count();
+                            ensure!(near == cnt, "{} values within {} of {:?}, expected {}; returned {:?}", near, rad, t, cnt, got);
+                        }
+                    }
+                    Ok(())
+                }),
+            ));
+        }
+    }
+    ctx.listed_cases("listed inputs of the fourth bug hunt: rings and multiple roots next to other roots (repaired by 4299543)", cases);
+}
+
 /// Cubics with a triple root whose perturbation is a tiny part (1e-131 .. 1e-320) of ONE coefficient: (x - r)^3 expanded exactly for
 /// r in {1, -2, 1+i, i/2} with a tiny real or imaginary part added to one of the four coefficients. Until e840274 the cube root in
 /// Cardano's formula went through the squared modulus (underflow -> k = 0 -> d0 / k = NaN): three NaN roots, both settings.
@@ -1054,6 +1254,9 @@ fn main() {
     }
     tiny_lead_space(&ctx);
     ring_space(&ctx, ctx.pick(9, 12));
+    ring_with_others_space(&ctx);
+    ring_known_case(&ctx);
+    hunt4_cases(&ctx);
     tiny_part_cubic_space(&ctx);
     hunt3_cases(&ctx);
     {
